@@ -787,6 +787,7 @@ func RunDesc(d Desc) mon.Result {
 		// (3) later traffic uses the selected framing: two rpcs, strictly decoded by the server
 		if helloOK && drv.SelectedVersion == want {
 			wantFraming := map[string]string{"1.0": "eom", "1.1": "chunked"}[want]
+			before := len(cs)
 			for k := 1; k <= 2; k++ {
 				filter := fmt.Sprintf("<%s-req%d/>", token, k)
 				needed := 0
@@ -843,7 +844,7 @@ func RunDesc(d Desc) mon.Result {
 				default:
 					obs["rpcs_checked"]++
 				}
-				if len(cs) > 0 {
+				if len(cs) > before {
 					break
 				}
 			}
